@@ -483,6 +483,7 @@ func c18RunCliCase(r *c18PeerRun) {
 			return
 		}
 		if fb.Where == "control-after" {
+			time.Sleep(50 * time.Millisecond) // SETTINGS must have been delivered: a reset may discard undelivered data
 			cw.mu.Lock()
 			ctrl := cw.ctrl
 			cw.mu.Unlock()
